@@ -274,7 +274,8 @@ class Obligation:
                 'seconds': round(self.seconds, 4), 'path': self.path}
 
 
-FEAS_TIMEOUT_MS = 3000
+FEAS_TIMEOUT_MS = 10000
+FEAS_RLIMIT = 6000000
 
 
 class FreshSolver:
@@ -285,10 +286,11 @@ class FreshSolver:
     a fresh solver given the same assertions, so nothing is kept between
     checks but the assertion stack itself."""
 
-    def __init__(self):
+    def __init__(self, engine=None):
         self.stack = [[]]
         self.params = {}
         self.last = None
+        self.engine = engine
 
     def set(self, k, v):
         self.params[k] = v
@@ -309,6 +311,8 @@ class FreshSolver:
         return [f for fr in self.stack for f in fr]
 
     def check(self, *extra):
+        if self.engine is not None:
+            self.engine.saturate(self.assertions() + list(extra))
         s = z3.Solver()
         for k, v in self.params.items():
             s.set(k, v)
@@ -337,8 +341,12 @@ class Path:
         self.decisions = []
         self.labels = []
         self.pc = []
-        self.solver = FreshSolver()
+        self.solver = FreshSolver(engine)
         self.solver.set('timeout', FEAS_TIMEOUT_MS)
+        # deterministic effort bound for feasibility / entailment queries: an
+        # exhausted budget counts as "feasible" / "not entailed" (always the weaker
+        # answer), independent of machine load
+        self.solver.set('rlimit', FEAS_RLIMIT)
         self.solver.set('random_seed', engine.seed)
         # feasibility / entailment queries run without array extensionality: cheaper,
         # and only ever weaker (more paths feasible, fewer facts entailed); proof
@@ -384,7 +392,11 @@ class Path:
         pos = len(self.decisions)
         n = len(conds)
         if pos < len(self.prefix):
-            k = self.prefix[pos]
+            ev = self.prefix[pos]
+            if not (isinstance(ev, tuple) and ev[0] == 'c') or ev[1] >= n:
+                raise Unsupported('path replay diverged at event %d (%r, now a %d-way choice %r)'
+                                  % (pos, ev, n, labels))
+            k = ev[1]
         else:
             feas = []
             for k, c in enumerate(conds):
@@ -401,11 +413,35 @@ class Path:
                 raise PathAbort()
             k = feas[0]
             for alt in feas[1:]:
-                self.engine.pending.append(self.decisions + [alt])
-        self.decisions.append(k)
+                self.engine.pending.append(self.decisions + [('c', alt)])
+        self.decisions.append(('c', k))
         self.labels.append(labels[k] if labels else str(k))
         self.assume(conds[k])
         return k
+
+    def memo(self, compute, fp=None):
+        """A solver-dependent answer that steers the engine (entailment,
+        feasibility): computed once, recorded in the event trace of the path
+        and replayed from there, so that re-executing a decision prefix takes
+        exactly the same steps even though more axiom instances exist by then
+        (a recorded answer is never stronger than a recomputed one)."""
+        pos = len(self.decisions)
+        if pos < len(self.prefix):
+            ev = self.prefix[pos]
+            if not (isinstance(ev, tuple) and ev[0] == 'm'):
+                raise Unsupported('path replay diverged at event %d (%r, now a memoised answer)' % (pos, ev))
+            if fp is not None and len(ev) > 2 and ev[2] is not None and ev[2] != fp:
+                raise Unsupported('path replay diverged at event %d: a different query is asked' % pos)
+            v = ev[1]
+        else:
+            v = compute()
+        self.decisions.append(('m', v, fp))
+        return v
+
+    def skip_events(self, n):
+        """replay: jump over n recorded events (the cached pre-state evaluation)"""
+        pos = len(self.decisions)
+        self.decisions.extend(self.prefix[pos:pos + n])
 
     def branch(self, cond, label=''):
         """Two-way branch on a z3 Bool; returns python bool."""
@@ -575,6 +611,47 @@ class Engine:
         return Engine._objids[k][0]
 
     # ---------------------------------------------------------- truthiness
+    def saturate(self, formulas):
+        """E-matching by hand: find applications of trigger symbols in the given
+        formulas (and in the axioms this produces) and let their handlers add
+        the matching axiom instances."""
+        trig = getattr(self, 'triggers', None)
+        if not trig:
+            return
+        seen = vals.SAT_SEEN
+        work = []
+        for f in formulas:
+            if f.get_id() not in seen:
+                work.append(f)
+                fs = z3.simplify(f)
+                if not fs.eq(f):
+                    work.append(fs)
+        rounds = 0
+        n_ax = vals.SAT_NAX[0]
+        while True:
+            stack = work
+            while stack:
+                t = stack.pop()
+                k = t.get_id()
+                if k in seen:
+                    continue
+                seen.add(k)
+                vals.KEEP.append(t)
+                if z3.is_app(t):
+                    h = trig.get(t.decl().name())
+                    if h is not None:
+                        h(t)
+                    stack.extend(t.children())
+                elif z3.is_quantifier(t):
+                    stack.append(t.body())
+            new = vals.AXIOMS[n_ax:]
+            n_ax = len(vals.AXIOMS)
+            vals.SAT_NAX[0] = n_ax
+            rounds += 1
+            if not new or rounds > 6:
+                break
+            work = list(new)
+
     def scan_instance(self, body):
         """A new instance of a quantified fact may contain applications of
         symbols that carry axiom schemas of their own (ClassAttr: inheritance
@@ -676,6 +753,9 @@ class Engine:
             return False
         if self.path is None:
             return False
+        return self.path.memo(lambda: self._must(c), c.hash())
+
+    def _must(self, c):
         if self._known(c):
             return True
         skey = tuple(vals.tid(x) for x in self.scopes)
@@ -1308,7 +1388,7 @@ class Engine:
                 parts.append(self.eval(v.value, fr))
         if all(isinstance(p, C) for p in parts):
             return C(''.join(str(p.v) for p in parts))
-        return T(Val.VStr(self.path.fresh('fstr', z3.StringSort())))
+        return T(Val.VStr(self.path.fresh('fstr', vals.STR)))
 
     def ex_Lambda(self, node, fr):
         return SClosure(node, fr)
@@ -1320,9 +1400,9 @@ class Engine:
             return self.eval(node.body if b else node.orelse, fr)
         if self.merge:
             b = z3.simplify(b)
-            if self.path.check(b) == z3.unsat:
+            if self.must(z3.Not(b)):
                 return self.eval(node.orelse, fr)
-            if self.path.check(z3.Not(b)) == z3.unsat:
+            if self.must(b):
                 return self.eval(node.body, fr)
             with self.assuming(b):
                 a = self.eval(node.body, fr)
@@ -1356,7 +1436,7 @@ class Engine:
                 ast.copy_location(rest, node)
                 # guard the failure conditions of the remaining operands by the prefix
                 guard = z3.simplify(b if is_and else z3.Not(b))
-                if self.path.check(guard) == z3.unsat:
+                if self.must(z3.Not(guard)):
                     return v
                 r = self.eval_guarded(rest, fr, guard)
                 if is_and:
@@ -1911,11 +1991,9 @@ def _spec_block(self, stmts, fr):
                 return self._spec_block((st.body if b else st.orelse) + rest, fr)
             b = z3.simplify(b)
             # decide with the solver when one side is infeasible in the current scope
-            ra = self.path.check(b)
-            if ra == z3.unsat:
+            if self.must(z3.Not(b)):
                 return self._spec_block(st.orelse + rest, fr)
-            rb = self.path.check(z3.Not(b))
-            if rb == z3.unsat:
+            if self.must(b):
                 return self._spec_block(st.body + rest, fr)
             saved = dict(fr.locals)
             with self.assuming(b):
@@ -2132,17 +2210,18 @@ def _elem_source(self, it, node):
                 return T(z3.Select(V.dm(t), vals.KeyId(z3.Select(V.dk(t), i))))
         return n, elem
     if isinstance(it, T):
-        t = it.t
+        t = z3.simplify(it.t)
         isl, ist, isd = V.is_VList(t), V.is_VTuple(t), V.is_VDict(t)
+        sel = lambda a, i: T(z3.simplify(z3.Select(z3.simplify(a), i)))
         if self.must(isl):
-            return V.llen(t), (lambda i: T(z3.Select(V.larr(t), i)))
+            return z3.simplify(V.llen(t)), (lambda i: sel(V.larr(t), i))
         if self.must(ist):
-            return V.tlen(t), (lambda i: T(z3.Select(V.tarr(t), i)))
+            return z3.simplify(V.tlen(t)), (lambda i: sel(V.tarr(t), i))
         if self.must(isd):
-            return V.dn(t), (lambda i: T(z3.Select(V.dk(t), i)))
+            return z3.simplify(V.dn(t)), (lambda i: sel(V.dk(t), i))
         if self.must(V.is_VSet(t)):
             # iteration order of a set: an unconstrained (but fixed) enumeration
-            return V.sn(t), (lambda i: T(z3.Select(V.sk(t), i)))
+            return z3.simplify(V.sn(t)), (lambda i: sel(V.sk(t), i))
         if self.must(z3.Or(isl, ist)):
             n = z3.If(isl, V.llen(t), V.tlen(t))
             arr = z3.If(isl, V.larr(t), V.tarr(t))
